@@ -59,6 +59,34 @@ def run(ctx) -> None:
     check_rule(ctx)
     check_zero(ctx)
     check_checked(ctx)
+    ctx.rule("C02.readonly", "T8: an operand that is documented as a source (the right-hand model of merge, the other reaction of + / -) is only read: nothing reachable from it is written or adopted", floor=5)
+    check_readonly(ctx)
+
+
+READ_ONLY_OPERANDS = [
+    ("cobra.core.model", "Model.merge", "right"),
+    ("cobra.core.reaction", "Reaction.__iadd__", "other"),
+    ("cobra.core.reaction", "Reaction.__add__", "other"),
+    ("cobra.core.reaction", "Reaction.__isub__", "other"),
+    ("cobra.core.reaction", "Reaction.__sub__", "other"),
+]
+
+
+def check_readonly(ctx) -> None:
+    """Effect summary of the operation, restricted to what is rooted in the source operand: must be empty (objects
+    taken over from it have to be copies)."""
+    for mod, q, p in READ_ONLY_OPERANDS:
+        fn = ctx.prog.func(mod, q)
+        if p not in fn.params:
+            raise AnalysisError(f"C02.readonly: {q} has no parameter {p}")
+        hits = [e for e in ctx.eff.summary(fn) if e.kind in ("RAW", "REV") and any(r == ("param", p) for r in e.roots)]
+        if hits:
+            e = hits[0]
+            site = e.chain[0][1] if e.chain else e.node
+            via = " <- ".join(f"{c[0].short}@L{getattr(c[1], 'lineno', 0)}" for c in e.chain[:3])
+            ctx.bad("C02.readonly", fn, enclosing_stmt(site) if isinstance(site, ast.AST) else fn.node, f"{q} changes `{p}` (or objects reachable from it): {e.cell} {e.op}{' via ' + via if via else ''} (+{len(hits) - 1} more): the operand is a source that must be left as it was, what is taken over has to be a copy")
+        else:
+            ctx.ok("C02.readonly", fn, p, f"`{p}` is only read")
 
 
 def check_groups(ctx) -> None:
@@ -379,8 +407,54 @@ def check_owner(ctx) -> None:
                 ctx.ok("C02.owner", fn, st, "re-insertion of an object this operation removed without clearing its pointer", nontrivial=False)
             else:
                 ctx.bad("C02.owner", fn, st, f"objects are inserted into {e.cell} without setting their model pointer: a listed object then reports `model is None`")
-    # the undo closures that re-insert objects
-    return
+    check_detached_adoption(ctx)
+
+
+def check_detached_adoption(ctx) -> None:
+    """A reaction without a model associates only gene objects it creates itself: `_associate_gene` hands the gene the
+    reaction's model pointer (None), so taking over an existing gene object - which may be listed in a model the
+    reaction was removed from - would leave that model with a listed gene that reports `model is None` and lists a
+    reaction the model does not contain."""
+    from ..effects import CONST, FRESH
+
+    fn = ctx.prog.func("cobra.core.reaction", "Reaction.update_genes_from_gpr")
+    sn = fn.self_name
+    found = False
+    for n in walk_local(fn.node):
+        if not isinstance(n, ast.If):
+            continue
+        t = " ".join(ast.unparse(n.test).split())
+        if t in (f"{sn}._model is None", f"{sn}.model is None", f"not {sn}._model", f"not {sn}.model"):
+            branch = n.body
+        elif t in (f"{sn}._model is not None", f"{sn}.model is not None", f"{sn}._model", f"{sn}.model"):
+            branch = n.orelse
+        else:
+            continue
+        for st in branch:
+            for x in ast.walk(st):
+                vals = []
+                if isinstance(x, ast.Assign) and any(isinstance(tg, ast.Attribute) and tg.attr == "_genes" and norm(tg.value) == sn for tg in x.targets):
+                    vals = [x.value]
+                elif isinstance(x, ast.Call) and isinstance(x.func, ast.Attribute) and x.func.attr in ("add", "update") and norm(x.func.value) == f"{sn}._genes" and x.args:
+                    vals = [x.args[0]]
+                elif isinstance(x, ast.Call) and isinstance(x.func, ast.Attribute) and x.func.attr == "_associate_gene" and x.args:
+                    vals = [x.args[0]]
+                for v in vals:
+                    found = True
+                    elems = [v.elt] if isinstance(v, (ast.SetComp, ast.ListComp, ast.GeneratorExp)) else (list(v.elts) if isinstance(v, (ast.Set, ast.List, ast.Tuple)) else [v])
+                    flat = []
+                    for e in elems:
+                        while isinstance(e, ast.IfExp):
+                            flat.append(e.body)
+                            e = e.orelse
+                        flat.append(e)
+                    foreign = [e for e in flat if any(r not in (FRESH, CONST) for r in ctx.eff.roots_of(fn, e)) and not (isinstance(e, ast.Call) and norm(e.func).split(".")[-1] in ("set", "Gene"))]
+                    if foreign:
+                        ctx.bad("C02.owner", fn, enclosing_stmt(x), f"a reaction without a model takes over an existing gene object (`{norm(foreign[0], 50)}`) and hands it its own model pointer (None): for a reaction that was removed from a model the gene is still listed in that model, which then lists a gene with `model is None` that refers to a reaction the model does not contain")
+                    else:
+                        ctx.ok("C02.owner", fn, enclosing_stmt(x), "a reaction without a model associates only gene objects it creates itself")
+    if not found:
+        ctx.note("C02.owner: update_genes_from_gpr has no recognisable model-less branch; detached adoption not read")
 
 
 def _owner_set(ctx, fn: FuncInfo, elem: ast.AST, model_text: str, st: ast.AST, g: CFG) -> bool:
